@@ -90,5 +90,102 @@ Proof.
   all: try (destruct Ht as [Ht|Ht]; try discriminate Ht; try (inversion Ht; fail);
             match goal with E : nth_error (conns _) _ = Some ?cn |- _ =>
               first [ apply (w_ctx _ I _ _ E); first [left; congruence | right; congruence] ] end; fail).
-  Show.
-Abort.
+Qed.
+
+Lemma existsb_upd_nth {A} (f : A -> bool) : forall l j x y,
+  nth_error l j = Some y -> existsb f (upd_nth j x l) = true -> f x = true \/ existsb f l = true.
+Proof.
+  induction l as [|a l IH]; intros [|j] x y Hn H; cbn in *; try discriminate.
+  - apply orb_true_iff in H. destruct H as [H|H]; [left; exact H|right; rewrite H; apply orb_true_r].
+  - apply orb_true_iff in H. destruct H as [H|H]; [right; rewrite H; reflexivity|].
+    destruct (IH _ _ _ Hn H) as [X|X]; [left; exact X|right; rewrite X; apply orb_true_r].
+Qed.
+
+Lemma existsb_upd_nth_keep {A} (f : A -> bool) : forall l j x y,
+  nth_error l j = Some y -> (f y = true -> f x = true) -> existsb f l = true -> existsb f (upd_nth j x l) = true.
+Proof.
+  induction l as [|a l IH]; intros [|j] x y Hn Hk H; cbn in *; try discriminate.
+  - inversion Hn; subst. apply orb_true_iff in H. destruct H as [H|H]; [rewrite (Hk H); reflexivity|rewrite H; apply orb_true_r].
+  - apply orb_true_iff in H. destruct H as [H|H]; [rewrite H; reflexivity|]. rewrite (IH _ _ _ Hn Hk H). apply orb_true_r.
+Qed.
+
+Lemma existsb_upd_nth_new {A} (f : A -> bool) : forall l j x y,
+  nth_error l j = Some y -> f x = true -> existsb f (upd_nth j x l) = true.
+Proof.
+  induction l as [|a l IH]; intros [|j] x y Hn Hx; cbn in *; try discriminate.
+  - rewrite Hx. reflexivity.
+  - rewrite (IH _ _ _ Hn Hx). apply orb_true_r.
+Qed.
+
+Lemma existsb_upd_nth_other {A} (f : A -> bool) : forall l j x y,
+  nth_error l j = Some y -> f y = false -> existsb f l = true -> existsb f (upd_nth j x l) = true.
+Proof.
+  intros l j x y Hn Hy. apply (existsb_upd_nth_keep f l j x y Hn). rewrite Hy. discriminate.
+Qed.
+
+Local Opaque index_of.
+
+Ltac watch_unfold := unfold closer_pending, listening in *; proj_simpl.
+
+Lemma watch_watch_preserved g st l st' : inv_watch st -> step g st l = Some st' ->
+  forall xc xcn, nth_error (conns st') xc = Some xcn -> kcleaned xcn = false ->
+            closer_pending st' xc xcn = true \/ listening xcn = true.
+Proof.
+  intros I H. destruct l; try destruct w; step_cases' H; intros xc xcn Hc Hk; unfold exit_update in *; norm.
+  all: try (apply (w_watch _ I _ _ Hc Hk); fail).
+  all: try discriminate.
+  all: try (match goal with E : nth_error (conns _) _ = Some ?cn |- _ =>
+              destruct (w_watch _ I _ _ E ltac:(assumption)) as [W|W]; watch_unfold;
+              repeat match goal with Ex : ksender _ = _ |- _ => rewrite Ex in * end;
+              repeat match goal with Ex : kreceiver _ = _ |- _ => rewrite Ex in * end;
+              repeat match goal with Ex : kcancel _ = _ |- _ => rewrite Ex in * end;
+              cbn [is_closer negb andb orb] in *; try discriminate; auto; fail end).
+  all: try (right; reflexivity).
+  all: try (match goal with E : nth_error (conns _) _ = Some ?cn |- _ =>
+              pose proof (w_ctx _ I _ _ E) as Wc;
+              pose proof (w_watch _ I _ _ E) as W; watch_unfold;
+              repeat match goal with Ex : ksender _ = _ |- _ => rewrite Ex in * end;
+              repeat match goal with Ex : kreceiver _ = _ |- _ => rewrite Ex in * end;
+              repeat match goal with Ex : kcancel _ = _ |- _ => rewrite Ex in * end;
+              repeat match goal with Ex : kcleaned _ = _ |- _ => rewrite Ex in * end;
+              cbn [is_closer negb andb orb] in *;
+              match goal with |- context [existsb ?f (aborters ?s)] => destruct (existsb f (aborters s)) | _ => idtac end;
+              destruct (kcancel cn); destruct (ksender cn) as [| |[[]| | |]]; destruct (kreceiver cn) as [| |[[]| | |]];
+              cbn in *; try discriminate; intuition (try discriminate; try congruence) end; fail).
+  - left. watch_unfold. erewrite existsb_upd_nth_new; [rewrite orb_true_r; reflexivity|eassumption|].
+    cbn. rewrite Nat.eqb_refl. reflexivity.
+  - destruct (w_watch _ I _ _ Hc Hk) as [W|W]; [left|right; exact W]. watch_unfold.
+    apply orb_true_iff in W. apply orb_true_iff. destruct W as [W|W]; [left; exact W|right].
+    eapply existsb_upd_nth_other; [eassumption| |exact W]. cbn.
+    destruct (Nat.eqb n xc) eqn:X; [apply Nat.eqb_eq in X; congruence|reflexivity].
+  - destruct (w_watch _ I _ _ Hc Hk) as [W|W]; [left|right; exact W]. watch_unfold.
+    apply orb_true_iff in W. apply orb_true_iff. destruct W as [W|W]; [left; exact W|right].
+    eapply existsb_upd_nth_other; [eassumption| |exact W]. cbn.
+    destruct (Nat.eqb n xc) eqn:X; [apply Nat.eqb_eq in X; congruence|reflexivity].
+  - left. watch_unfold. rewrite existsb_app. cbn. rewrite Nat.eqb_refl. cbn. rewrite !orb_true_r. reflexivity.
+  - destruct (w_watch _ I _ _ Hc Hk) as [W|W]; [left|right; exact W]. watch_unfold.
+    apply orb_true_iff in W. apply orb_true_iff. destruct W as [W|W]; [left; exact W|right].
+    rewrite existsb_app, W. reflexivity.
+Qed.
+
+Lemma inv_watch_step g st l st' : inv_watch st -> step g st l = Some st' -> inv_watch st'.
+Proof.
+  intros I H. split.
+  - apply (watch_ctx_preserved g st l st' I H).
+  - apply (watch_watch_preserved g st l st' I H).
+Qed.
+
+Lemma inv_watch_init ts : inv_watch (init ts).
+Proof. split; intros c cn H; destruct c; discriminate. Qed.
+
+(* ------------------------------------------------------------------ active callers *)
+Definition refs_ok (st : state) : Prop :=
+  forall k cl c i, nth_error (callers st) k = Some cl -> active_on c i (pc cl) = true -> (c < length (conns st))%nat.
+
+Lemma active_on_inv c i p : active_on c i p = true ->
+  p = CAlloc c i \/ p = CStored c i \/ p = CEnq c i.
+Proof.
+  destruct p; cbn; try discriminate; intros H; apply andb_true_iff in H; destruct H as [H1 H2];
+    apply Nat.eqb_eq in H1; apply Z.eqb_eq in H2; subst; auto.
+Qed.
+
